@@ -131,4 +131,17 @@ CLAIMS = {
         "note": _TB + "core::fmt {:x} prints lowercase hexadecimal.",
         "technique": "writer/reader table composition by conditional constant propagation; byte-class subset checks",
     },
+    "C05": {
+        "text": "Claimed (structural clauses): decimal-only routines (parse_decimal, parse_exponent, f64_from_parts) are "
+                "reachable only under a radix == 10 edge, so non-decimal literals are never scaled by powers of ten; in both "
+                "cfg variants of f64_from_parts (default and --no-default-features) a multiplied or std-parsed double "
+                "reaches `return` only through a finiteness test, so infinity is never returned; POW10 (read from the "
+                "compiled static) equals the correctly rounded 1e0..1e308 and is looked up with slice::get; the radix-10 "
+                "dispatch accepts the printer's number alphabet; lossy casts in the scanner and Number are the reviewed "
+                "ones. Exact rounding of individual literals and the 2^-50 bound are runtime-value questions and are not "
+                "decided.",
+        "note": _TB + "Python's float('1e%d') is correctly rounded; rustc rounds float literals correctly.",
+        "technique": "edge-dominance analysis on the radix parameter, path-cut reachability between double producers and "
+                     "return, constant-table comparison, cast inventory, byte-sequence constant propagation",
+    },
 }
